@@ -994,6 +994,10 @@ def rule_J(ctx):
              ('b=a*2', 'b', lambda: [2 * x for x in VAL['a']]), ('q=SUM{a}', 'q', lambda: [sum(VAL['a'])] * N), ('a+b', None, None), ('a', None, None),
              ('a*(b+c)+SUM{a}', None, None), ('q=5', 'q', lambda: [5.0] * N), ('b=5', 'b', lambda: [5.0] * N), ('x=a', 'x', lambda: list(VAL['a'])),
              ('q=D{a}+I{b}', 'q', None), ('a=b', 'a', lambda: list(VAL['b'])), ('a=a', 'a', lambda: list(VAL['a'])), ('c=c', 'c', lambda: list(VAL['c'])),
+             # an aggregate evaluated after temporaries have been produced and consumed (its result must not land on a stale temporary)
+             ('q=a*(b+c)+AVG{a}', 'q', lambda: [x * (y + z) + sum(VAL['a']) / N for x, y, z in zip(VAL['a'], VAL['b'], VAL['c'])]),
+             ('q=(a+b)*(a-b)+SUM{c}', 'q', lambda: [(x + y) * (x - y) + sum(VAL['c']) for x, y in zip(VAL['a'], VAL['b'])]),
+             ('b=AVG{a}*SUM{b}-MAX{c}', 'b', lambda: [sum(VAL['a']) / N * sum(VAL['b']) - max(VAL['c'])] * N),
              # long expressions: more than ten, and more than a hundred, evaluator temporaries (#0 ... #11, #0 ... #101)
              ('q=' + '+'.join(['a', 'b'] * 6 + ['a']), 'q', lambda: [7 * x + 6 * y for x, y in zip(VAL['a'], VAL['b'])]),
              ('+'.join(['a', 'b'] * 6 + ['a']), None, None),
